@@ -9,3 +9,28 @@ b, e = "<!-- seeded-table:begin -->", "<!-- seeded-table:end -->"
 i, j = s.index(b) + len(b), s.index(e)
 open(p, "w").write(s[:i] + "\n" + table + s[j:])
 print("rows:", table.count("\n") - 2)
+
+# --- the counts and the list of the Outcome paragraph, from the result files ---------------------------
+import glob as _glob, os as _os, re as _re, json as _json
+_miss, _n = [], 0
+for _d in sorted(_glob.glob('/verif/seeded/*/')):
+    _name = _os.path.basename(_d.rstrip('/'))
+    _f = _d + 'result-quick.json'
+    if not _os.path.exists(_f):
+        continue
+    _n += 1
+    _r = _json.load(open(_f))
+    _caught = sorted(p for p, v in _r.items() if isinstance(v, dict) and v.get('exit') == 1)
+    if not _caught:
+        print("NOT CAUGHT BY ANY CHECK:", _name)
+    if _name.split('-')[0] not in _caught:
+        _miss.append(f"{_name} ({', '.join(_caught)})")
+_p = '/verif/DESIGN.md'
+_s = open(_p).read()
+_a = _s.index("**Outcome.** Every confirmed change")
+_b = _s.index("**What the misses taught")
+_new = _re.sub(r"\d+ of the \d+ are reported", f"{_n - len(_miss)} of the {_n} are reported", _s[_a:_b])
+_new = _re.sub(r"the other \d+ are reported", f"the other {len(_miss)} are reported", _new)
+_new = _re.sub(r"whichever property's agent wrote it\): .*?\.\nIn the table", "whichever property's agent wrote it): " + '; '.join(_miss) + ".\nIn the table", _new, flags=_re.S)
+open(_p, 'w').write(_s[:_a] + _new + _s[_b:])
+print("outcome paragraph:", _n, "changes,", len(_miss), "not by their own check")
